@@ -2238,14 +2238,19 @@ class _Gen:
             % (st, base, step(ref), ref(hd)))
         arg = r.randint(0, 5)
         sit.uses = lambda ref, tmp: ["emit(%s(%d));" % (ref(st), arg)]
-        hit = Item(hd, "fn_value")
-        hit.recursive = True
-        hit.deps.add(st)
-        hit.render = lambda ref: "%s :: %s;" % (hd, ref(st))
-        a2 = r.randint(0, 5)
-        hit.uses = lambda ref, tmp: ["emit(%s(%d));" % (ref(hd), a2)]
+        # `hd` is the function's value, directly or through a chain of one or two more aliases
+        chain = [self.fresh("hx") for _ in range(r.choice([0, 0, 1, 2]))]
         self.p.add(sit)
-        self.p.add(hit)
+        prev = st
+        for al in chain + [hd]:
+            ait = Item(al, "fn_value")
+            ait.recursive = True
+            ait.deps.add(prev)
+            ait.render = (lambda ref, al=al, prev=prev: "%s :: %s;" % (al, ref(prev)))
+            a2 = r.randint(0, 5)
+            ait.uses = (lambda ref, tmp, al=al, a2=a2: ["emit(%s(%d));" % (ref(al), a2)])
+            self.p.add(ait)
+            prev = al
         self.int_fns.append(st)
 
     def mk_distinct_generic(self):
